@@ -78,11 +78,11 @@ def decrypt_wiring(rep, prog):
                 continue
             seen += 1
             R = [call_text(c) for c in dsk]
-            names = prog.method('pgpy.packet.packets', 'IntegrityProtectedSKEDataV1', 'decrypt').params[1:]       # (key, alg)
+            names = prog.method('pgpy.packet.packets', 'IntegrityProtectedSKEDataV1', 'decrypt').params[1:3]      # (key, alg)
             da = bind_call(dec[0], names) if len(dec) == 1 else {}
             ok = len(dec) == 1 and ((set(da) == set(names) and len(names) == 2 and
                                      any([da[names[0]], da[names[1]]] == ['%s[1]' % r, '%s[0]' % r] for r in R)) or
-                                    (not dec[0][2] and any(dec[0][1] == ['*reversed(%s)' % r] for r in R)))
+                                    (not dec[0][2] and any(dec[0][1] in (['*reversed(%s)' % r], ['*%s[::-1]' % r]) for r in R)))
             rep.check(ok, 'C03.7', '%s.decrypt' % cls, 'container.decrypt(%s)' % (', '.join(dec[0][1])[:120] if dec else None),
                       'the container must be decrypted with the session key and the cipher that decrypt_sk recovered (in that order)',
                       where=fi.where, expected='message.decrypt(R[1], R[0]) with R = <esk>.decrypt_sk(...)', found=dec[0][1] if dec else None)
